@@ -4,12 +4,16 @@
 // epochs / ack / clear / cancel / listen), records every server critical section through the
 // verif hooks plus every response the server sends, and asks the Lean model to replay the trace:
 // each event must be an enabled step of Bifrost.Sig whose post-state equals the logged server
-// state. Model-independent monitors state the properties directly on the observed traffic.
+// state. Model-independent monitors state the properties directly on the observed traffic: they
+// are evaluated on the real server's responses, returned errors and logged state whether or not
+// the model replay has diverged, so a diverged trace still gets a confirmed verdict whenever a
+// property is in fact violated.
 package main
 
 import (
 	"bytes"
 	"context"
+	"errors"
 	"fmt"
 	"io"
 	"sort"
@@ -18,17 +22,24 @@ import (
 	"sync"
 	"time"
 
-	"github.com/aperturerobotics/bifrost/crypto"
 	"github.com/aperturerobotics/bifrost/hash"
+	"github.com/aperturerobotics/bifrost/link"
 	"github.com/aperturerobotics/bifrost/peer"
+	"github.com/aperturerobotics/bifrost/protocol"
 	signaling "github.com/aperturerobotics/bifrost/signaling/rpc"
 	signaling_rpc_server "github.com/aperturerobotics/bifrost/signaling/rpc/server"
+	"github.com/aperturerobotics/bifrost/stream"
 	"github.com/aperturerobotics/starpc/srpc"
 	"github.com/sirupsen/logrus"
 
 	"verif/harness/lib"
+	"verif/harness/quiet"
+	"verif/harness/sigoracle"
 	"verif/harness/sigtrace"
 )
+
+// nPeers is the number of peers (five, so that a listener can have up to four wanting peers).
+const nPeers = 5
 
 type ctxKey struct{}
 
@@ -39,23 +50,30 @@ type engine struct {
 	rep *lib.Report
 	le  *logrus.Entry
 
-	keys  []crypto.PrivKey // index 0 unused; 1..3 sorted by peer id string
+	keys  []*sigoracle.Key // index 0 nil; 1..nPeers sorted by peer id string (the server's session key order)
 	pids  []peer.ID
 	pidIx map[string]int
+	// stream objects of finished scenarios are kept alive so that their addresses (the call
+	// identities in hook lines) are never reused by a later scenario
+	keep []any
 }
 
 // world is one scenario run.
 type world struct {
 	e        *engine
 	srv      *signaling_rpc_server.Server
+	ident    string // "callback": NewServerWithIdentify; "mounted": NewServer + link.WithMountedStreamContext
 	mtx      sync.Mutex
 	log      []string // raw lines: hook lines and "tx …" lines, in real-time order
 	calls    map[string]int
 	scalls   []*sessStream
 	lcalls   []*listenStream
+	raws     []*sessStream // calls with a scripted (invalid) first request or without identity
+	rawl     []*listenStream
 	subs     []*submission
 	mon      []string
 	lastSnap string
+	nextID   int
 }
 
 type submission struct {
@@ -63,8 +81,10 @@ type submission struct {
 	src, dst  int
 	seqno     uint64
 	epoch     uint64
-	authentic bool
-	signer    int
+	kind      string
+	authentic bool // harness verdict (stdlib): verifies under the SUBMITTING stream's key and names it
+	v         int  // harness verdict (stdlib): verifies under the key of the peer it names
+	claimed   int  // index of the peer it names as sender (0 = none)
 	wire      []byte
 	call      int
 }
@@ -85,6 +105,9 @@ type sessStream struct {
 	closedRx bool
 	hold     chan struct{} // when non-nil, Send blocks (after logging) until released: a slow client
 	inSend   chan struct{}
+	killed   bool   // the harness cancelled the stream
+	poison   string // the harness sent a request the relay must answer by failing the stream
+	first    string // scripted first request ("" = a valid Init)
 }
 
 func (s *sessStream) holdSends() {
@@ -103,6 +126,14 @@ func (s *sessStream) release() {
 		s.hold = nil
 	}
 	s.mtx.Unlock()
+}
+
+// kill is the harness cancelling the stream (as opposed to the handler returning by itself).
+func (s *sessStream) kill() {
+	s.mtx.Lock()
+	s.killed = true
+	s.mtx.Unlock()
+	s.cancel()
 }
 
 func (s *sessStream) Context() context.Context { return s.ctx }
@@ -162,6 +193,7 @@ type listenStream struct {
 	err    error
 	hold   chan struct{} // when non-nil, Send blocks (after logging) until it is closed: a slow client
 	inSend chan struct{} // closed when the first held Send has been entered
+	killed bool
 }
 
 // holdSends makes the next Send calls block until release is called.
@@ -181,6 +213,22 @@ func (s *listenStream) release() {
 		s.hold = nil
 	}
 	s.mtx.Unlock()
+}
+
+func (s *listenStream) kill() {
+	s.mtx.Lock()
+	s.killed = true
+	s.mtx.Unlock()
+	s.cancel()
+}
+
+func (s *listenStream) alive() bool {
+	select {
+	case <-s.done:
+		return false
+	default:
+		return true
+	}
 }
 
 func (s *listenStream) Context() context.Context { return s.ctx }
@@ -209,8 +257,43 @@ func (s *listenStream) MsgRecv(srpc.Message) error                     { return 
 func (s *listenStream) CloseSend() error                               { return nil }
 func (s *listenStream) Close() error                                   { return nil }
 
+// fakeMounted is the MountedStreamContext of a stream whose link authenticated peer `pid`.
+type fakeMounted struct{ pid peer.ID }
+
+func (f *fakeMounted) GetStream() stream.Stream     { return nil }
+func (f *fakeMounted) GetProtocolID() protocol.ID   { return signaling.ProtocolID }
+func (f *fakeMounted) GetOpenOpts() stream.OpenOpts { return stream.OpenOpts{} }
+func (f *fakeMounted) GetPeerID() peer.ID           { return f.pid }
+func (f *fakeMounted) GetLink() link.MountedLink    { return nil }
+
+// identCtx is the context of a stream authenticated as peer `pid` (0 = not authenticated at all).
+func (w *world) identCtx(pid int) context.Context {
+	ctx := context.Background()
+	if pid == 0 {
+		return ctx
+	}
+	if w.ident == "mounted" {
+		return link.WithMountedStreamContext(ctx, &fakeMounted{pid: w.e.pids[pid]})
+	}
+	return context.WithValue(ctx, ctxKey{}, w.e.pids[pid])
+}
+
+// sink receives the hook lines. Lines of calls this world did not start (a handler of an
+// earlier scenario finishing late) are not part of this world's trace.
 func (w *world) sink(line string) {
 	w.mtx.Lock()
+	if strings.HasPrefix(line, "ev=") {
+		if i := strings.Index(line, " call="); i >= 0 {
+			c := line[i+6:]
+			if j := strings.IndexByte(c, ' '); j >= 0 {
+				c = c[:j]
+			}
+			if _, ok := w.calls[c]; !ok {
+				w.mtx.Unlock()
+				return
+			}
+		}
+	}
 	w.log = append(w.log, line)
 	w.mtx.Unlock()
 }
@@ -230,7 +313,7 @@ func (w *world) logTx(call int, m *signaling.SessionResponse) {
 		mid := 0
 		w.mtx.Lock()
 		for _, s := range w.subs {
-			if bytes.Equal(s.wire, wire) {
+			if len(s.wire) != 0 && bytes.Equal(s.wire, wire) {
 				mid = s.mid
 			}
 		}
@@ -252,13 +335,14 @@ func (w *world) newSession(src, dst int) *sessStream { return w.newSessionOpt(sr
 
 // newSessionOpt: held = the client is slow from the start (the handler's first Send blocks).
 func (w *world) newSessionOpt(src, dst int, held bool) *sessStream {
-	ctx, cancel := context.WithCancel(context.WithValue(context.Background(), ctxKey{}, w.e.pids[src]))
+	ctx, cancel := context.WithCancel(w.identCtx(src))
 	s := &sessStream{w: w, src: src, dst: dst, ctx: ctx, cancel: cancel, reqCh: make(chan *signaling.SessionRequest, 64), done: make(chan struct{})}
 	if held {
 		s.holdSends()
 	}
 	w.mtx.Lock()
-	s.id = len(w.scalls) + len(w.lcalls) + 1
+	w.nextID++
+	s.id = w.nextID
 	w.scalls = append(w.scalls, s)
 	w.calls[fmt.Sprintf("%p", s)] = s.id
 	w.mtx.Unlock()
@@ -271,12 +355,82 @@ func (w *world) newSessionOpt(src, dst int, held bool) *sessStream {
 	return s
 }
 
-func (w *world) newListen(pid int) *listenStream {
-	ctx, cancel := context.WithCancel(context.WithValue(context.Background(), ctxKey{}, w.e.pids[pid]))
+// rawFirsts are the scripted first requests the relay must refuse before registering anything.
+var rawFirsts = []string{"first-send", "first-ack", "first-clear", "init-self", "init-seqno", "init-empty", "init-garbage", "init-eof", "first-empty"}
+
+// newSessionRaw starts a Session call authenticated as `src` (0 = no identity on the stream)
+// whose first request is scripted by `first`; a valid Init towards dst follows it.
+func (w *world) newSessionRaw(src, dst int, first string) *sessStream {
+	ctx, cancel := context.WithCancel(w.identCtx(src))
+	s := &sessStream{w: w, src: src, dst: dst, ctx: ctx, cancel: cancel, reqCh: make(chan *signaling.SessionRequest, 64), done: make(chan struct{}), first: first}
+	w.mtx.Lock()
+	w.nextID++
+	s.id = w.nextID
+	w.raws = append(w.raws, s)
+	w.calls[fmt.Sprintf("%p", s)] = s.id
+	w.mtx.Unlock()
+	e := w.e
+	dstStr := e.pids[dst].String()
+	init := func(pid string, q uint64) *signaling.SessionRequest {
+		return &signaling.SessionRequest{SessionSeqno: q, Body: &signaling.SessionRequest_Init{Init: &signaling.SessionInit{PeerId: pid}}}
+	}
+	signer := src
+	if signer == 0 {
+		signer = 1
+	}
+	switch first {
+	case "first-send":
+		msg, err := signaling.NewSessionMsg(e.keys[signer].SK, hash.HashType_HashType_BLAKE3, []byte("before init"), 1)
+		if err != nil {
+			panic(err)
+		}
+		s.reqCh <- &signaling.SessionRequest{Body: &signaling.SessionRequest_SendMsg{SendMsg: msg}}
+	case "first-ack":
+		s.reqCh <- &signaling.SessionRequest{Body: &signaling.SessionRequest_AckMsg{AckMsg: 1}}
+	case "first-clear":
+		s.reqCh <- &signaling.SessionRequest{Body: &signaling.SessionRequest_ClearMsg{ClearMsg: 1}}
+	case "first-empty":
+		s.reqCh <- &signaling.SessionRequest{}
+	case "init-self":
+		s.reqCh <- init(e.pids[signer].String(), 0)
+	case "init-seqno":
+		s.reqCh <- init(dstStr, uint64(1+e.rng.Intn(3)))
+	case "init-empty":
+		s.reqCh <- init("", 0)
+	case "init-garbage":
+		s.reqCh <- init("not-a-peer-id", 0)
+	case "init-eof":
+		close(s.reqCh)
+		s.closedRx = true
+	case "no-ident":
+	default:
+		panic("unknown first request " + first)
+	}
+	if !s.closedRx {
+		s.reqCh <- init(dstStr, 0) // a well-formed Init afterwards must not rescue the call
+	}
+	go func() {
+		s.err = w.srv.Session(s)
+		s.cancel()
+		close(s.done)
+	}()
+	return s
+}
+
+func (w *world) newListen(pid int) *listenStream { return w.newListenAs(pid, pid) }
+
+// newListenAs: identPid = the identity on the stream (0 = none).
+func (w *world) newListenAs(pid, identPid int) *listenStream {
+	ctx, cancel := context.WithCancel(w.identCtx(identPid))
 	s := &listenStream{w: w, pid: pid, ctx: ctx, cancel: cancel, done: make(chan struct{})}
 	w.mtx.Lock()
-	s.id = len(w.scalls) + len(w.lcalls) + 1
-	w.lcalls = append(w.lcalls, s)
+	w.nextID++
+	s.id = w.nextID
+	if identPid == 0 {
+		w.rawl = append(w.rawl, s)
+	} else {
+		w.lcalls = append(w.lcalls, s)
+	}
 	w.calls[fmt.Sprintf("%p", s)] = s.id
 	w.mtx.Unlock()
 	go func() {
@@ -309,41 +463,37 @@ func (s *sessStream) alive() bool {
 	}
 }
 
-// quiesce waits until the event log has been stable for a while.
+// quiesce waits until the server is quiescent: for three consecutive samples `d` apart the event
+// log has not grown AND no goroutine of the process is runnable, running or in a system call
+// (package quiet: load-proof, a handler that has not been scheduled yet counts as busy).
 func (w *world) quiesce(d time.Duration) {
-	stable := 0
-	last := -1
-	for i := 0; i < 4000 && stable < 3; i++ {
-		time.Sleep(d)
+	quiet.Settle(func() int {
 		w.mtx.Lock()
-		n := len(w.log)
-		w.mtx.Unlock()
-		if n == last {
-			stable++
-		} else {
-			stable = 0
-			last = n
-		}
-	}
+		defer w.mtx.Unlock()
+		return len(w.log)
+	}, d, 3, 20*time.Second)
 }
 
-// canonical converts the raw log to the driver's trace.
-func (w *world) canonical() (string, string) {
+func (w *world) lines() []string {
 	w.mtx.Lock()
-	lines := append([]string(nil), w.log...)
-	w.mtx.Unlock()
+	defer w.mtx.Unlock()
+	return append([]string(nil), w.log...)
+}
+
+// canonical converts the raw log to the driver's trace. The verdict (v, g) handed to the model for
+// every submission is the HARNESS's own (stdlib) judgement of the message, never the server's.
+func (w *world) canonical() (string, string) {
+	lines := w.lines()
 	tr, last, cerr := sigtrace.Canonical(sigtrace.Input{Lines: lines, PidIx: w.e.pidIx, Calls: w.calls, SubOf: func(call, k int) (sigtrace.Sub, bool) {
 		for _, x := range w.scalls {
 			if x.id == call {
+				x.mtx.Lock()
+				defer x.mtx.Unlock()
 				if k >= len(x.valid) {
 					return sigtrace.Sub{}, false
 				}
 				sub := x.valid[k]
-				v := 0
-				if sub.authentic || sub.signer != x.src {
-					v = 1
-				}
-				return sigtrace.Sub{Mid: sub.mid, Epoch: sub.epoch, Seqno: sub.seqno, V: v, Signer: sub.signer}, true
+				return sigtrace.Sub{Mid: sub.mid, Epoch: sub.epoch, Seqno: sub.seqno, V: sub.v, Signer: sub.claimed}, true
 			}
 		}
 		return sigtrace.Sub{}, false
@@ -364,51 +514,21 @@ func (w *world) jitter() {
 	}
 }
 
+// forgedKinds are the submissions built by hand (sigoracle.Forged) on the server side.
+func forgedKinds() []string {
+	var l []string
+	for _, c := range sigoracle.ForgedClasses {
+		l = append(l, "send-"+c)
+	}
+	return l
+}
+
+// submit makes one client action on a session stream.
 func (w *world) submit(s *sessStream, kind string) {
 	epoch, open := s.lastOpened()
-	switch kind {
-	case "send", "send-stale", "send-future", "send-forged-key", "send-tampered":
-		s.nextQ++
-		q := s.nextQ
-		key := w.e.keys[s.src]
-		authentic := true
-		if kind == "send-forged-key" {
-			key = w.e.keys[s.dst]
-			authentic = false
-		}
-		data := w.e.rng.Bytes(1 + w.e.rng.Intn(20))
-		msg, err := signaling.NewSessionMsg(key, hash.HashType_HashType_BLAKE3, data, q)
-		if err != nil {
-			panic(err)
-		}
-		if kind == "send-tampered" {
-			msg.SignedMsg.Data[0] ^= 1
-			authentic = false
-		}
-		e := epoch
-		switch kind {
-		case "send-stale":
-			if e > 0 {
-				e--
-			}
-		case "send-future":
-			e += 3
-		}
-		if !open && kind == "send" {
-			e = epoch // 0: stale unless the session really is at 0 (never)
-		}
-		wire, _ := msg.MarshalVT()
-		w.mtx.Lock()
-		sub := &submission{mid: len(w.subs) + 1, src: s.src, dst: s.dst, seqno: q, epoch: e, authentic: authentic, wire: wire, call: s.id}
-		w.subs = append(w.subs, sub)
-		sub.signer = s.src
-		if kind == "send-forged-key" {
-			sub.signer = s.dst
-		}
-		s.valid = append(s.valid, sub)
-		w.mtx.Unlock()
-		s.reqCh <- &signaling.SessionRequest{SessionSeqno: e, Body: &signaling.SessionRequest_SendMsg{SendMsg: msg}}
-	case "ack":
+	e := w.e
+	switch {
+	case kind == "ack":
 		// ack the last message received on this stream
 		var k uint64
 		s.mtx.Lock()
@@ -418,44 +538,162 @@ func (w *world) submit(s *sessStream, kind string) {
 			}
 		}
 		s.mtx.Unlock()
-		if k == 0 || w.e.rng.Intn(6) == 0 {
-			k = uint64(1 + w.e.rng.Intn(4)) // unsolicited / wrong ack
+		if k == 0 || e.rng.Intn(6) == 0 {
+			k = uint64(1 + e.rng.Intn(4)) // unsolicited / wrong ack
 		}
 		s.reqCh <- &signaling.SessionRequest{SessionSeqno: epoch, Body: &signaling.SessionRequest_AckMsg{AckMsg: k}}
-	case "clear":
+	case kind == "clear":
 		k := s.nextQ
-		if k == 0 || w.e.rng.Intn(5) == 0 {
-			k = uint64(1 + w.e.rng.Intn(4))
+		if k == 0 || e.rng.Intn(5) == 0 {
+			k = uint64(1 + e.rng.Intn(4))
 		}
 		s.reqCh <- &signaling.SessionRequest{SessionSeqno: epoch, Body: &signaling.SessionRequest_ClearMsg{ClearMsg: k}}
-	case "init-again":
-		s.reqCh <- &signaling.SessionRequest{SessionSeqno: epoch, Body: &signaling.SessionRequest_Init{Init: &signaling.SessionInit{PeerId: w.e.pids[s.dst].String()}}}
-	case "close-rx":
+	case kind == "init-again":
+		s.setPoison(kind)
+		s.reqCh <- &signaling.SessionRequest{SessionSeqno: epoch, Body: &signaling.SessionRequest_Init{Init: &signaling.SessionInit{PeerId: e.pids[s.dst].String()}}}
+	case kind == "empty-request":
+		s.setPoison(kind)
+		s.reqCh <- &signaling.SessionRequest{SessionSeqno: epoch}
+	case kind == "close-rx":
 		if !s.closedRx {
 			s.closedRx = true
 			close(s.reqCh)
 		}
-	case "cancel":
-		s.cancel()
+	case kind == "cancel":
+		s.kill()
+	case strings.HasPrefix(kind, "send"):
+		s.nextQ++
+		q := s.nextQ
+		data := e.rng.Bytes(1 + e.rng.Intn(20))
+		mine := e.keys[s.src]
+		// a key holder other than the submitting stream's peer
+		foreign := e.keys[s.dst]
+		if e.rng.Intn(2) == 0 {
+			foreign = e.keys[1+(s.src+e.rng.Intn(nPeers-1))%nPeers]
+		}
+		var msg *signaling.SessionMsg
+		wantAuth := false
+		switch kind {
+		case "send", "send-stale", "send-future":
+			m, err := signaling.NewSessionMsg(mine.SK, hash.HashType_HashType_BLAKE3, data, q)
+			if err != nil {
+				panic(err)
+			}
+			msg, wantAuth = m, true
+		case "send-forged-key": // validly signed by another peer under its own name
+			m, err := signaling.NewSessionMsg(foreign.SK, hash.HashType_HashType_BLAKE3, data, q)
+			if err != nil {
+				panic(err)
+			}
+			msg = m
+		case "send-tampered":
+			m, err := signaling.NewSessionMsg(mine.SK, hash.HashType_HashType_BLAKE3, data, q)
+			if err != nil {
+				panic(err)
+			}
+			m.SignedMsg.Data[0] ^= 1
+			msg = m
+		case "send-keyed": // authentic, with the sender's own (redundant) public key attached
+			msg, wantAuth = sigoracle.KeyedAuthentic(mine, data, q), true
+		case "send-nil-msg": // a SendMsg request without any message
+			msg = nil
+		default:
+			m, ok := sigoracle.Forged(strings.TrimPrefix(kind, "send-"), mine, foreign, data, q)
+			if !ok {
+				panic("unknown submission kind " + kind)
+			}
+			msg = m
+		}
+		ep := epoch
+		switch kind {
+		case "send-stale":
+			if ep > 0 {
+				ep--
+			}
+		case "send-future":
+			ep += 3
+		}
+		if !open && kind == "send" {
+			ep = epoch // 0: stale unless the session really is at 0 (never)
+		}
+		var wire []byte
+		if msg != nil {
+			wire, _ = msg.MarshalVT()
+		}
+		v, claimed := sigoracle.Verdict(e.keys, msg)
+		sub := &submission{src: s.src, dst: s.dst, seqno: q, epoch: ep, kind: kind, v: v, claimed: claimed, wire: wire, call: s.id}
+		sub.authentic = sigoracle.AuthenticFrom(mine, msg)
+		if sub.authentic != wantAuth || sub.authentic != (v == 1 && claimed == s.src) {
+			panic(fmt.Sprintf("harness self-check: submission kind %s: oracle says authentic=%v v=%d claimed=%d, construction says %v", kind, sub.authentic, v, claimed, wantAuth))
+		}
+		if !sub.authentic || kind == "send-future" {
+			s.setPoison(kind)
+		}
+		w.mtx.Lock()
+		sub.mid = len(w.subs) + 1
+		w.subs = append(w.subs, sub)
+		w.mtx.Unlock()
+		s.mtx.Lock()
+		s.valid = append(s.valid, sub)
+		s.mtx.Unlock()
+		s.reqCh <- &signaling.SessionRequest{SessionSeqno: ep, Body: &signaling.SessionRequest_SendMsg{SendMsg: msg}}
+	default:
+		panic("unknown action " + kind)
 	}
 }
 
+func (s *sessStream) setPoison(kind string) {
+	s.mtx.Lock()
+	if s.poison == "" {
+		s.poison = kind
+	}
+	s.mtx.Unlock()
+}
+
+func (e *engine) newWorld(ident string) *world {
+	w := &world{e: e, calls: map[string]int{}, ident: ident}
+	if ident == "mounted" {
+		// the relay as it is deployed: the identity of a stream is the peer of its mounted stream context
+		w.srv = signaling_rpc_server.NewServer(e.le)
+	} else {
+		w.srv = signaling_rpc_server.NewServerWithIdentify(e.le, func(ctx context.Context) (peer.ID, error) {
+			return ctx.Value(ctxKey{}).(peer.ID), nil
+		})
+	}
+	return w
+}
+
 func (e *engine) scenario(kind string, n int) {
-	le := e.le
-	w := &world{e: e, calls: map[string]int{}}
-	w.srv = signaling_rpc_server.NewServerWithIdentify(le, func(ctx context.Context) (peer.ID, error) {
-		return ctx.Value(ctxKey{}).(peer.ID), nil
-	})
+	ident := "callback"
+	if kind == "ident-mounted" || (kind == "random" && e.rng.Intn(3) == 0) {
+		ident = "mounted"
+	}
+	w := e.newWorld(ident)
 	signaling_rpc_server.VerifSetSink(w.sink)
 	defer signaling_rpc_server.VerifSetSink(nil)
+	defer func() {
+		for _, s := range w.scalls {
+			e.keep = append(e.keep, s)
+		}
+		for _, s := range w.raws {
+			e.keep = append(e.keep, s)
+		}
+		for _, l := range w.lcalls {
+			e.keep = append(e.keep, l)
+		}
+		for _, l := range w.rawl {
+			e.keep = append(e.keep, l)
+		}
+	}()
 	var actions []string
 	act := func(s string) { actions = append(actions, s) }
+	q := func() { w.quiesce(300 * time.Microsecond) }
 	switch kind {
 	case "reattach-race":
 		// C22 sentinel: B detaches and re-attaches (or is usurped) while A stays attached
 		a := w.newSession(1, 2)
 		b := w.newSession(2, 1)
-		w.quiesce(300 * time.Microsecond)
+		q()
 		act("attach 1->2; attach 2->1")
 		for i := 0; i < n; i++ {
 			if e.rng.Intn(2) == 0 {
@@ -464,7 +702,7 @@ func (e *engine) scenario(kind string, n int) {
 				_ = b
 				b = b2
 			} else {
-				b.cancel()
+				b.kill()
 				b = w.newSession(2, 1)
 				act("cancel+reattach 2->1")
 			}
@@ -476,9 +714,9 @@ func (e *engine) scenario(kind string, n int) {
 	case "late-attach":
 		// C22 sentinel (F9): the second peer attaches and only IT has something to send
 		w.newSession(1, 2)
-		w.quiesce(300 * time.Microsecond)
+		q()
 		b := w.newSession(2, 1)
-		w.quiesce(300 * time.Microsecond)
+		q()
 		act("attach 1->2; quiesce; attach 2->1; quiesce")
 		w.submit(b, "send")
 		act("send on 2->1")
@@ -486,28 +724,28 @@ func (e *engine) scenario(kind string, n int) {
 		// C20/C22 sentinel: B's write loop is parked in Send (slow client) while A1 submits a
 		// message for the current epoch and A2 then replaces A1 (new epoch); B resumes
 		a1 := w.newSession(1, 2)
-		w.quiesce(300 * time.Microsecond)
+		q()
 		b := w.newSessionOpt(2, 1, true)
 		select {
 		case <-b.inSend:
 		case <-time.After(2 * time.Second):
 		}
-		w.quiesce(300 * time.Microsecond)
+		q()
 		w.submit(a1, "send")
-		w.quiesce(300 * time.Microsecond)
+		q()
 		w.newSession(1, 2) // replaces a1, new epoch
-		w.quiesce(300 * time.Microsecond)
+		q()
 		b.release()
 		act("attach 1->2; attach 2->1 (slow client: parked in its first Send); send on 1->2; 1 re-attaches (new epoch); 2->1 resumes")
 	case "listen-reopen":
 		// C24 sentinel (F8): listener stays while a session towards it opens, closes, re-opens
 		w.newListen(2)
-		w.quiesce(300 * time.Microsecond)
+		q()
 		for i := 0; i < n; i++ {
 			s := w.newSession(1, 2)
-			w.quiesce(300 * time.Microsecond)
-			s.cancel()
-			w.quiesce(300 * time.Microsecond)
+			q()
+			s.kill()
+			q()
 			act("listen 2; open 1->2; close")
 		}
 		w.newSession(1, 2)
@@ -516,23 +754,23 @@ func (e *engine) scenario(kind string, n int) {
 	case "listen-swap":
 		// C24 sentinel: while the listener is inside Send(SetPeer X), X's session closes and Z's opens
 		l := w.newListen(2)
-		w.quiesce(300 * time.Microsecond)
+		q()
 		l.holdSends()
 		x := w.newSession(1, 2)
 		select {
 		case <-l.inSend:
 		case <-time.After(2 * time.Second):
 		}
-		x.cancel()
-		w.quiesce(300 * time.Microsecond)
+		x.kill()
+		q()
 		w.newSession(3, 2)
-		w.quiesce(300 * time.Microsecond)
+		q()
 		l.release()
 		act("listen 2 (slow client); open 1->2; while Send(SetPeer 1) blocks: close 1->2, open 3->2; release")
 	case "listen-stale-cleanup":
 		// C25 sentinel: a replaced Listen call that finishes late must not disturb a newer tracker
 		l1 := w.newListen(2)
-		w.quiesce(300 * time.Microsecond)
+		q()
 		l1.holdSends()
 		sx := w.newSession(1, 2)
 		select {
@@ -540,18 +778,169 @@ func (e *engine) scenario(kind string, n int) {
 		case <-time.After(2 * time.Second):
 		}
 		l2 := w.newListen(2) // replaces l1
-		w.quiesce(300 * time.Microsecond)
-		l2.cancel()
-		w.quiesce(300 * time.Microsecond)
-		sx.cancel() // last want gone: tracker released
-		w.quiesce(300 * time.Microsecond)
+		q()
+		l2.kill()
+		q()
+		sx.kill() // last want gone: tracker released
+		q()
 		w.newListen(2) // l3 on a fresh tracker
-		w.quiesce(300 * time.Microsecond)
+		q()
 		l1.release() // l1 now observes it was replaced and runs its cleanup
 		w.quiesce(500 * time.Microsecond)
 		w.newSession(3, 2) // must be announced to l3
 		act("L1 listens (slow client) ; session 1->2; L2 replaces L1; L2 cancelled; session ends; L3 listens; L1 finishes late; session 3->2")
+	case "listen-usurp-open":
+		// C24/C25 sentinel: a Listen call is replaced by a newer one for the same peer (client
+		// reconnect); the replaced call's exit must leave the shared tracker to its successor, which
+		// must learn of every session opened afterwards. n selects the variant.
+		hub := 2 + e.rng.Intn(2)
+		others := []int{}
+		for p := 1; p <= nPeers; p++ {
+			if p != hub {
+				others = append(others, p)
+			}
+		}
+		switch n % 3 {
+		case 0: // no want at usurp time: the exit of L1 must not release the tracker under L2
+			w.newListen(hub)
+			q()
+			w.newListen(hub)
+			q()
+			act(fmt.Sprintf("listen %d; listen %d again (replaces the first); quiesce", hub, hub))
+		case 1: // a want exists at usurp time; it closes afterwards, then others open
+			s := w.newSession(others[0], hub)
+			w.newListen(hub)
+			q()
+			w.newListen(hub)
+			q()
+			s.kill()
+			q()
+			act(fmt.Sprintf("open %d->%d; listen %d; listen %d again; close %d->%d", others[0], hub, hub, hub, others[0], hub))
+		case 2: // two replacements in a row, the first while the listener is parked in Send
+			l1 := w.newListen(hub)
+			q()
+			l1.holdSends()
+			s := w.newSession(others[0], hub)
+			select {
+			case <-l1.inSend:
+			case <-time.After(2 * time.Second):
+			}
+			w.newListen(hub)
+			q()
+			w.newListen(hub)
+			q()
+			l1.release()
+			q()
+			s.kill()
+			q()
+			act(fmt.Sprintf("listen %d (slow client); open %d->%d; listen %d again twice; first listener resumes; close %d->%d", hub, others[0], hub, hub, others[0], hub))
+		}
+		// now the peers open (and some close) sessions towards the hub: the live listener must follow
+		var open []*sessStream
+		for _, p := range others {
+			open = append(open, w.newSession(p, hub))
+			w.jitter()
+		}
+		q()
+		open[e.rng.Intn(len(open))].kill()
+		act(fmt.Sprintf("open sessions from %v towards %d; close one", others, hub))
+	case "session-overlap":
+		// C24/C25 sentinel: two overlapping Session calls from one source to the same destination
+		// (client retry before the relay noticed the old stream is gone): the older call ends with
+		// the replaced error and its exit must not withdraw the want the newer call relies on.
+		hub := 2 + e.rng.Intn(2)
+		src := 1
+		listenFirst := n%2 == 0
+		if listenFirst {
+			w.newListen(hub)
+			q()
+		}
+		for i := 0; i < 1+n%3; i++ {
+			w.newSession(src, hub)
+			q()
+		}
+		w.newSession(src, hub) // overlaps the previous call, stays open
+		q()
+		other := 4 + e.rng.Intn(2)
+		w.newSession(other, hub)
+		w.newSession(other, hub) // same for a second source, back to back
+		q()
+		if !listenFirst {
+			w.newListen(hub) // a listener starting now must be told both peers
+			q()
+		}
+		act(fmt.Sprintf("listenFirst=%v hub=%d: %d overlapping session calls %d->%d, the last stays open; two overlapping calls %d->%d", listenFirst, hub, 2+n%3, src, hub, other, hub))
+	case "listen-many":
+		// C24: a listener with up to four wanting peers, opening and closing in random order, with
+		// listener replacements in between
+		hub := 1 + e.rng.Intn(nPeers)
+		w.newListen(hub)
+		act(fmt.Sprintf("listen %d", hub))
+		cur := map[int]*sessStream{}
+		for i := 0; i < n; i++ {
+			p := 1 + e.rng.Intn(nPeers)
+			if p == hub {
+				if e.rng.Intn(2) == 0 {
+					w.newListen(hub)
+					act(fmt.Sprintf("listen %d again", hub))
+				}
+				continue
+			}
+			if s := cur[p]; s != nil && s.alive() && e.rng.Intn(3) > 0 {
+				s.kill()
+				delete(cur, p)
+				act(fmt.Sprintf("close %d->%d", p, hub))
+			} else {
+				cur[p] = w.newSession(p, hub)
+				act(fmt.Sprintf("open %d->%d", p, hub))
+			}
+			w.jitter()
+		}
+	case "forgery-classes":
+		// C20 sentinel: with the partner attached and the session open, the submitting stream sends
+		// one message of every forgery class in the CURRENT epoch (each must fail the stream and
+		// must not be forwarded), re-attaching after each; authentic messages in between still flow
+		b := w.newSession(2, 1)
+		kinds := append(forgedKinds(), "send-forged-key", "send-tampered", "send-nil-msg", "send-keyed", "send")
+		e.rng.Shuffle(len(kinds), func(i, j int) { kinds[i], kinds[j] = kinds[j], kinds[i] })
+		for _, k := range kinds {
+			a := w.newSession(1, 2)
+			q()
+			w.submit(a, k)
+			q()
+			w.submit(b, "ack")
+			act(k + " on a fresh 1->2 call")
+		}
+		a := w.newSession(1, 2)
+		q()
+		w.submit(a, "send")
+		act("send on a fresh 1->2 call")
+	case "ident-mounted", "ident-callback":
+		// C20: identity of a stream (mounted stream context / ident callback) and requests before Init
+		firsts := append([]string(nil), rawFirsts...)
+		e.rng.Shuffle(len(firsts), func(i, j int) { firsts[i], firsts[j] = firsts[j], firsts[i] })
+		b := w.newSession(2, 1)
+		w.newListen(2)
+		q()
+		for _, f := range firsts {
+			w.newSessionRaw(1, 2, f)
+			act("session call as 1 with first request " + f)
+			w.jitter()
+		}
+		if ident == "mounted" {
+			w.newSessionRaw(0, 2, "no-ident")
+			w.newListenAs(2, 0)
+			act("session call and listen call on streams without a mounted stream context")
+		}
+		q()
+		a := w.newSession(1, 2)
+		q()
+		w.submit(a, "send")
+		q()
+		w.submit(b, "ack")
+		act("attach 1->2; send; ack")
 	default: // random
+		hub := 1 + e.rng.Intn(nPeers)
 		for i := 0; i < n; i++ {
 			live := []*sessStream{}
 			for _, s := range w.scalls {
@@ -562,22 +951,28 @@ func (e *engine) scenario(kind string, n int) {
 			r := e.rng.Intn(100)
 			switch {
 			case r < 18 || len(live) == 0:
-				src := 1 + e.rng.Intn(3)
-				dst := 1 + e.rng.Intn(3)
-				if src == dst {
-					dst = 1 + dst%3
+				src := 1 + e.rng.Intn(nPeers)
+				dst := hub // sessions towards a common peer: its listener has several wanting peers
+				if e.rng.Intn(3) == 0 {
+					dst = 1 + e.rng.Intn(nPeers)
 				}
-				if e.rng.Intn(3) > 0 { // bias to the 1<->2 pair
-					src, dst = 1+e.rng.Intn(2), 0
+				if src == dst {
+					dst = 1 + dst%nPeers
+				}
+				if e.rng.Intn(2) == 0 { // bias to the 1<->2 pair
+					src = 1 + e.rng.Intn(2)
 					dst = 3 - src
 				}
 				w.newSession(src, dst)
 				act(fmt.Sprintf("attach %d->%d", src, dst))
-			case r < 24:
-				p := 1 + e.rng.Intn(3)
+			case r < 25:
+				p := hub
+				if e.rng.Intn(3) == 0 {
+					p = 1 + e.rng.Intn(nPeers)
+				}
 				w.newListen(p)
 				act(fmt.Sprintf("listen %d", p))
-			case r < 26:
+			case r < 27:
 				var ss []*sessStream
 				for _, x := range w.scalls {
 					if x.alive() {
@@ -594,12 +989,10 @@ func (e *engine) scenario(kind string, n int) {
 						act(fmt.Sprintf("release session call %d", x.id))
 					}
 				}
-			case r < 28:
+			case r < 29:
 				var ll []*listenStream
 				for _, l := range w.lcalls {
-					select {
-					case <-l.done:
-					default:
+					if l.alive() {
 						ll = append(ll, l)
 					}
 				}
@@ -613,24 +1006,31 @@ func (e *engine) scenario(kind string, n int) {
 						act(fmt.Sprintf("release listen call %d", l.id))
 					}
 				}
-			case r < 30:
+			case r < 31:
 				var ll []*listenStream
 				for _, l := range w.lcalls {
-					select {
-					case <-l.done:
-					default:
+					if l.alive() {
 						ll = append(ll, l)
 					}
 				}
 				if len(ll) > 0 {
 					l := ll[e.rng.Intn(len(ll))]
-					l.cancel()
+					l.kill()
 					act(fmt.Sprintf("cancel listen call %d", l.id))
 				}
+			case r < 33:
+				f := rawFirsts[e.rng.Intn(len(rawFirsts))]
+				src := 1 + e.rng.Intn(nPeers)
+				w.newSessionRaw(src, 1+src%nPeers, f)
+				act("session call with first request " + f)
 			default:
 				s := live[e.rng.Intn(len(live))]
-				kinds := []string{"send", "send", "send", "send", "ack", "ack", "ack", "clear", "send-stale", "send-future", "send-forged-key", "send-tampered", "init-again", "close-rx", "cancel", "cancel"}
+				kinds := []string{"send", "send", "send", "send", "send", "ack", "ack", "ack", "clear", "send-stale", "send-future", "send-forged-key", "send-tampered", "init-again", "close-rx", "cancel", "cancel", "send-keyed"}
 				k := kinds[e.rng.Intn(len(kinds))]
+				if e.rng.Intn(12) == 0 {
+					fk := append(forgedKinds(), "send-nil-msg", "empty-request")
+					k = fk[e.rng.Intn(len(fk))]
+				}
 				w.submit(s, k)
 				act(fmt.Sprintf("%s on call %d", k, s.id))
 			}
@@ -647,19 +1047,25 @@ func (e *engine) scenario(kind string, n int) {
 	e.validate(w, kind, actions, false)
 	// drain: end every call, then the relay must hold no state
 	for _, s := range w.scalls {
-		s.cancel()
+		s.kill()
+	}
+	for _, s := range w.raws {
+		s.kill()
 	}
 	for _, l := range w.lcalls {
-		l.cancel()
+		l.kill()
 	}
-	for _, s := range w.scalls {
+	for _, l := range w.rawl {
+		l.kill()
+	}
+	for _, s := range append(append([]*sessStream(nil), w.scalls...), w.raws...) {
 		select {
 		case <-s.done:
 		case <-time.After(3 * time.Second):
 			w.mon = append(w.mon, fmt.Sprintf("session call %d did not return after cancel", s.id))
 		}
 	}
-	for _, l := range w.lcalls {
+	for _, l := range append(append([]*listenStream(nil), w.lcalls...), w.rawl...) {
 		select {
 		case <-l.done:
 		case <-time.After(3 * time.Second):
@@ -669,48 +1075,30 @@ func (e *engine) scenario(kind string, n int) {
 	e.validate(w, kind, actions, true)
 }
 
-func (e *engine) validate(w *world, kind string, actions []string, drained bool) {
-	trace, cerr := w.canonical()
-	phase := "quiescent"
-	if drained {
-		phase = "drained"
-	}
-	op := "sig.trace evs=" + trace
-	var model string
-	if cerr != "" {
-		model = "harness-error " + cerr
-	} else {
-		model = e.m.Query(op)
-	}
-	mon := ""
-	key := "sigsrv.trace:" + kind
-	// retry once after a longer settle if the model still sees pending wake-ups (scheduling latency)
-	for _, wait := range []time.Duration{20, 60, 150, 400, 1000} {
-		if !(strings.HasPrefix(model, "ok ") && (lib.KV(model, "awake") != "_" || lib.KV(model, "failing") != "_" || lib.KV(model, "pendingtx") != "_")) {
-			break
-		}
-		w.quiesce(wait * time.Millisecond / 3)
-		trace, cerr = w.canonical()
-		op = "sig.trace evs=" + trace
-		model = e.m.Query(op)
-	}
-	impl := "ok"
-	if !strings.HasPrefix(model, "ok ") {
-		impl = "trace-accepted-by-real-server"
-	} else {
-		if aw := lib.KV(model, "awake"); aw != "_" {
-			mon = "lost wake-up: the server is quiescent but calls " + aw + " have an unannounced state change pending (their write loop was not woken)"
-			key = "sigsrv.wakeup:" + kind
-		}
-		if f := lib.KV(model, "failing"); f != "_" && mon == "" {
-			mon = "calls " + f + " should have returned (usurped / protocol error) but are still running"
+// observe evaluates the model-independent monitors on what the real server did: the responses
+// it sent, the errors its handlers returned, its own hook lines (event order, its own usurp
+// decisions, its last logged state). Nothing here depends on the Lean replay.
+func (e *engine) observe(w *world, kind string, drained bool, cerr string) (mon, key string) {
+	key = "sigsrv.trace:" + kind
+	set := func(k, m string) {
+		if mon == "" {
+			mon = m
+			if k != "" {
+				key = k
+			}
 		}
 	}
-	// ---- model-independent monitors on the observed traffic ----
+	lines := w.lines()
+	facts := sigtrace.ReadFacts(lines, e.pidIx, w.calls)
+	// ---- C20 / C22: the traffic every stream received ----
 	subByWire := map[string]*submission{}
+	w.mtx.Lock()
 	for _, s := range w.subs {
-		subByWire[string(s.wire)] = s
+		if len(s.wire) != 0 {
+			subByWire[string(s.wire)] = s
+		}
 	}
+	w.mtx.Unlock()
 	for _, s := range w.scalls {
 		s.mtx.Lock()
 		var lastOpen uint64
@@ -720,33 +1108,93 @@ func (e *engine) validate(w *world, kind string, actions []string, drained bool)
 			switch b := r.GetBody().(type) {
 			case *signaling.SessionResponse_Opened:
 				if b.Opened <= prevOpen {
-					mon = fmt.Sprintf("call %d: session epochs announced out of order (%d after %d)", s.id, b.Opened, prevOpen)
+					set("", fmt.Sprintf("call %d: session epochs announced out of order (%d after %d)", s.id, b.Opened, prevOpen))
 				}
 				prevOpen, lastOpen, open = b.Opened, b.Opened, true
 			case *signaling.SessionResponse_Closed:
 				open = false
 			case *signaling.SessionResponse_RecvMsg:
+				// direct statement of C20 on the forwarded message itself (stdlib only): it must verify
+				// under the key of the identity of the stream that submitted it (the partner of this
+				// call's session) over the body it carries, and name that identity as its sender
+				if !sigoracle.AuthenticFrom(e.keys[s.dst], b.RecvMsg) {
+					set("sigsrv.forward:forged", fmt.Sprintf("call %d (%d->%d): the relay forwarded a message (seqno %d, sender field names peer %d) that does not verify under the submitting stream's identity (peer %d) over that body with the stdlib",
+						s.id, s.src, s.dst, b.RecvMsg.GetSeqno(), e.pidIx[sigoracle.From(b.RecvMsg)], s.dst))
+				}
 				wire, _ := b.RecvMsg.MarshalVT()
 				sub := subByWire[string(wire)]
 				switch {
 				case sub == nil:
-					mon = fmt.Sprintf("call %d received a message nobody submitted", s.id)
+					set("", fmt.Sprintf("call %d received a message nobody submitted", s.id))
 				case !sub.authentic:
-					mon = fmt.Sprintf("call %d (%d->%d) was forwarded a message that is not authentic", s.id, s.src, s.dst)
-					key = "sigsrv.forward:forged"
+					set("sigsrv.forward:forged", fmt.Sprintf("call %d (%d->%d) was forwarded a message that is not authentic (submission kind %s)", s.id, s.src, s.dst, sub.kind))
 				case sub.src != s.dst || sub.dst != s.src:
-					mon = fmt.Sprintf("call %d (%d->%d) was forwarded a message submitted on session %d->%d", s.id, s.src, s.dst, sub.src, sub.dst)
+					set("", fmt.Sprintf("call %d (%d->%d) was forwarded a message submitted on session %d->%d", s.id, s.src, s.dst, sub.src, sub.dst))
 				case !open:
-					mon = fmt.Sprintf("call %d was forwarded a message while the session was announced closed", s.id)
+					set("", fmt.Sprintf("call %d was forwarded a message while the session was announced closed", s.id))
 				case sub.epoch != lastOpen:
-					mon = fmt.Sprintf("call %d: message submitted in epoch %d delivered in epoch %d", s.id, sub.epoch, lastOpen)
-					key = "sigsrv.forward:cross-epoch"
+					set("sigsrv.forward:cross-epoch", fmt.Sprintf("call %d: message submitted in epoch %d delivered in epoch %d", s.id, sub.epoch, lastOpen))
 				}
 			}
 		}
 		s.mtx.Unlock()
 	}
-	if !drained && cerr == "" {
+	// ---- C20: calls that must be refused before anything is registered ----
+	for _, s := range w.raws {
+		what := "whose first request was " + s.first
+		if s.first == "no-ident" {
+			what = "on a stream without any authenticated identity"
+		}
+		s.mtx.Lock()
+		nresp := len(s.resps)
+		s.mtx.Unlock()
+		switch {
+		case facts.Events[s.id] != 0:
+			set("sigsrv.init:"+s.first, fmt.Sprintf("session call %d %s was registered by the relay (%d critical sections logged) instead of being refused", s.id, what, facts.Events[s.id]))
+		case nresp != 0:
+			set("sigsrv.init:"+s.first, fmt.Sprintf("session call %d %s was sent %d responses instead of being refused", s.id, what, nresp))
+		case s.alive():
+			set("sigsrv.init:"+s.first, fmt.Sprintf("session call %d %s is still running instead of being refused", s.id, what))
+		case s.err == nil:
+			set("sigsrv.init:"+s.first, fmt.Sprintf("session call %d %s returned without an error", s.id, what))
+		}
+	}
+	for _, l := range w.rawl {
+		l.mtx.Lock()
+		nresp := len(l.resps)
+		l.mtx.Unlock()
+		if facts.Events[l.id] != 0 || nresp != 0 || l.alive() || l.err == nil {
+			set("sigsrv.init:listen-no-ident", fmt.Sprintf("listen call %d on a stream without any authenticated identity was not refused (events=%d responses=%d running=%v)", l.id, facts.Events[l.id], nresp, l.alive()))
+		}
+	}
+	// newer registration of the same ordered pair / the same listening peer, by the server's own event order
+	sessReplacedBy := func(s *sessStream) int {
+		at, ok := facts.InitAt[s.id]
+		if !ok {
+			return 0
+		}
+		best := 0
+		for c, a := range facts.InitAt {
+			if c != s.id && a > at && facts.Pair[c] == facts.Pair[s.id] {
+				best = c
+			}
+		}
+		return best
+	}
+	listenReplacedBy := func(l *listenStream) int {
+		at, ok := facts.LRegAt[l.id]
+		if !ok {
+			return 0
+		}
+		best := 0
+		for c, a := range facts.LRegAt {
+			if c != l.id && a > at && facts.LPid[c] == facts.LPid[l.id] {
+				best = c
+			}
+		}
+		return best
+	}
+	if !drained {
 		// quiescent state vs announcements and listeners (property statements, from the real server's last logged state)
 		final := w.lastSnap
 		parts := strings.SplitN(final, "#", 2)
@@ -760,11 +1208,23 @@ func (e *engine) validate(w *world, kind string, actions []string, drained bool)
 				liveSess[[2]int{s.src, s.dst}] = s
 			}
 		}
-		if dup && mon == "" {
-			mon = "two session calls for the same ordered peer pair are still active at quiescence"
+		if dup {
+			set("sigsrv.unique:"+kind, "two session calls for the same ordered peer pair are still active at quiescence")
 		}
-		// C22: every attached peer whose partner is attached has been told the current epoch
-		if len(parts) == 2 && parts[1] != "" {
+		liveListen := map[int]int{}
+		for _, l := range w.lcalls {
+			if l.alive() {
+				liveListen[l.pid]++
+			}
+		}
+		for p, c := range liveListen {
+			if c > 1 {
+				set("sigsrv.unique:"+kind, fmt.Sprintf("%d listen calls for peer %d are still active at quiescence", c, p))
+			}
+		}
+		// C22: every attached peer whose partner is attached has been told the current epoch; and
+		// (lost wake-up, read off the server's own state) nothing relayed is left undelivered
+		if cerr == "" && len(parts) == 2 && parts[1] != "" {
 			for _, se := range strings.Split(parts[1], "|") {
 				f := strings.Split(se, ":")
 				seqno, _ := strconv.ParseUint(f[1], 10, 64)
@@ -772,7 +1232,8 @@ func (e *engine) validate(w *world, kind string, actions []string, drained bool)
 					if at == "nil" {
 						continue
 					}
-					c, _ := strconv.Atoi(strings.Split(at, "/")[0])
+					af := strings.Split(at, "/")
+					c, _ := strconv.Atoi(af[0])
 					var cs *sessStream
 					for _, s := range w.scalls {
 						if s.id == c {
@@ -784,32 +1245,34 @@ func (e *engine) validate(w *world, kind string, actions []string, drained bool)
 					}
 					lo, open := cs.lastOpened()
 					both := f[2] != "nil" && f[3] != "nil"
-					if both && (!open || lo != seqno) && mon == "" {
-						mon = fmt.Sprintf("both peers are attached at epoch %d but call %d (%d->%d) was last told open=%v epoch=%d", seqno, c, cs.src, cs.dst, open, lo)
-						key = "sigsrv.announce:" + kind
+					if both && (!open || lo != seqno) {
+						set("sigsrv.announce:"+kind, fmt.Sprintf("both peers are attached at epoch %d but call %d (%d->%d) was last told open=%v epoch=%d", seqno, c, cs.src, cs.dst, open, lo))
 					}
-					if !both && open && mon == "" {
-						mon = fmt.Sprintf("partner of call %d is detached but the call was never told the session closed", c)
-						key = "sigsrv.announce:" + kind
+					if !both && open {
+						set("sigsrv.announce:"+kind, fmt.Sprintf("partner of call %d is detached but the call was never told the session closed", c))
+					}
+					if both && len(af) == 5 && af[1] != "-" {
+						set("sigsrv.wakeup:"+kind, fmt.Sprintf("lost wake-up: the relay is quiescent with message %s stored for the running call %d (%d->%d) and never transmitted to it", af[1], c, cs.src, cs.dst))
+					}
+					if both && len(af) == 5 && af[4] != "-" {
+						set("sigsrv.wakeup:"+kind, fmt.Sprintf("lost wake-up: the relay is quiescent with the acknowledgement of message %s stored for the running call %d (%d->%d) and never transmitted to it", af[4], c, cs.src, cs.dst))
 					}
 				}
 			}
 		}
 		// C24: announced-minus-withdrawn equals the peers with a live session request
 		for _, l := range w.lcalls {
-			select {
-			case <-l.done:
+			if !l.alive() {
 				continue
-			default:
 			}
-			set := map[int]bool{}
+			told := map[int]bool{}
 			l.mtx.Lock()
 			for _, r := range l.resps {
 				switch b := r.GetBody().(type) {
 				case *signaling.ListenResponse_SetPeer:
-					set[e.pidIx[b.SetPeer]] = true
+					told[e.pidIx[b.SetPeer]] = true
 				case *signaling.ListenResponse_ClearPeer:
-					delete(set, e.pidIx[b.ClearPeer])
+					delete(told, e.pidIx[b.ClearPeer])
 				}
 			}
 			l.mtx.Unlock()
@@ -819,56 +1282,164 @@ func (e *engine) validate(w *world, kind string, actions []string, drained bool)
 					want[k[0]] = true
 				}
 			}
-			if fmt.Sprint(keys(set)) != fmt.Sprint(keys(want)) && mon == "" {
-				mon = fmt.Sprintf("listener for peer %d was told %v but the peers holding a session request towards it are %v", l.pid, keys(set), keys(want))
-				key = "sigsrv.listen:" + kind
+			if fmt.Sprint(keys(told)) != fmt.Sprint(keys(want)) {
+				set("sigsrv.listen:"+kind, fmt.Sprintf("listener for peer %d (call %d) was told %v but the peers holding a session request towards it are %v", l.pid, l.id, keys(told), keys(want)))
+			}
+		}
+		// C25: a call replaced by a newer one has ended with the replaced error; a call nobody
+		// cancelled, closed, poisoned or replaced is still running
+		for _, s := range w.scalls {
+			s.mtx.Lock()
+			excused := s.killed || s.closedRx || s.poison != ""
+			s.mtx.Unlock()
+			if excused {
+				continue
+			}
+			by := sessReplacedBy(s)
+			switch {
+			case by != 0 && s.alive():
+				set("sigsrv.replaced:"+kind, fmt.Sprintf("session call %d (%d->%d) was replaced by the newer call %d but is still running at quiescence", s.id, s.src, s.dst, by))
+			case by != 0 && !errors.Is(s.err, signaling.ErrUserpedSession):
+				set("sigsrv.replaced:"+kind, fmt.Sprintf("session call %d (%d->%d) was replaced by the newer call %d but ended with %q instead of the replaced error", s.id, s.src, s.dst, by, fmt.Sprint(s.err)))
+			case by == 0 && !s.alive():
+				set("sigsrv.early-return:"+kind, fmt.Sprintf("session call %d (%d->%d) returned by itself (%q) although it was neither cancelled, closed, replaced nor sent an invalid request", s.id, s.src, s.dst, fmt.Sprint(s.err)))
+			}
+		}
+		for _, l := range w.lcalls {
+			l.mtx.Lock()
+			excused := l.killed
+			l.mtx.Unlock()
+			if excused {
+				continue
+			}
+			by := listenReplacedBy(l)
+			switch {
+			case by != 0 && l.alive():
+				set("sigsrv.replaced:"+kind, fmt.Sprintf("listen call %d for peer %d was replaced by the newer call %d but is still running at quiescence", l.id, l.pid, by))
+			case by != 0 && !errors.Is(l.err, signaling.ErrUserpedListen):
+				set("sigsrv.replaced:"+kind, fmt.Sprintf("listen call %d for peer %d was replaced by the newer call %d but ended with %q instead of the replaced error", l.id, l.pid, by, fmt.Sprint(l.err)))
+			case by == 0 && !l.alive():
+				set("sigsrv.early-return:"+kind, fmt.Sprintf("listen call %d for peer %d returned by itself (%q) although it was neither cancelled nor replaced", l.id, l.pid, fmt.Sprint(l.err)))
 			}
 		}
 	}
 	if drained {
 		np, ns := w.srv.VerifCounts()
-		if (np != 0 || ns != 0) && mon == "" {
-			mon = fmt.Sprintf("all calls have ended but the relay still holds %d peer trackers and %d session trackers", np, ns)
-			key = "sigsrv.drain:" + kind
+		if np != 0 || ns != 0 {
+			set("sigsrv.drain:"+kind, fmt.Sprintf("all calls have ended but the relay still holds %d peer trackers and %d session trackers", np, ns))
 		}
-		// usurped calls must have ended with the replaced errors
 		for _, m := range w.mon {
-			if mon == "" {
-				mon = m
+			set("", m)
+		}
+		// C25 "the older one ends with a replaced error": exactly the calls the SERVER decided were
+		// replaced (its write loop found another attachment on its side / its listen loop found a
+		// newer nonce) end with ErrUserpedSession / ErrUserpedListen, and no other call does
+		for _, s := range w.scalls {
+			if s.alive() {
+				continue
+			}
+			is := errors.Is(s.err, signaling.ErrUserpedSession)
+			switch {
+			case facts.SessUsurped[s.id] && !is:
+				set("sigsrv.replaced-error:"+kind, fmt.Sprintf("session call %d (%d->%d) found itself replaced but ended with %q instead of ErrUserpedSession", s.id, s.src, s.dst, fmt.Sprint(s.err)))
+			case !facts.SessUsurped[s.id] && is:
+				set("sigsrv.replaced-error:"+kind, fmt.Sprintf("session call %d (%d->%d) ended with ErrUserpedSession although it never found itself replaced", s.id, s.src, s.dst))
+			case is && sessReplacedBy(s) == 0:
+				set("sigsrv.replaced-error:"+kind, fmt.Sprintf("session call %d (%d->%d) ended with ErrUserpedSession although no newer call of that pair had registered", s.id, s.src, s.dst))
+			case errors.Is(s.err, signaling.ErrUserpedListen):
+				set("sigsrv.replaced-error:"+kind, fmt.Sprintf("session call %d ended with the listen error", s.id))
+			}
+		}
+		for _, l := range w.lcalls {
+			if l.alive() {
+				continue
+			}
+			is := errors.Is(l.err, signaling.ErrUserpedListen)
+			switch {
+			case facts.ListenUsurped[l.id] && !is:
+				set("sigsrv.replaced-error:"+kind, fmt.Sprintf("listen call %d for peer %d found itself replaced but ended with %q instead of ErrUserpedListen", l.id, l.pid, fmt.Sprint(l.err)))
+			case !facts.ListenUsurped[l.id] && is:
+				set("sigsrv.replaced-error:"+kind, fmt.Sprintf("listen call %d for peer %d ended with ErrUserpedListen although it never found itself replaced", l.id, l.pid))
 			}
 		}
 	}
 	// C25: a Listen call may only be told it was replaced when a newer Listen call for the same
 	// peer registered after it (read off the real server's own event order, not the model)
-	if mon == "" {
-		type reg struct{ call, pid, at int }
-		var regs []reg
-		for i, tok := range strings.Split(trace, ";") {
-			f := strings.Split(tok, ",")
-			switch f[0] {
-			case "lreg":
-				c, _ := strconv.Atoi(strings.TrimPrefix(f[1], "c="))
-				p, _ := strconv.Atoi(strings.TrimPrefix(f[2], "pid="))
-				regs = append(regs, reg{c, p, i})
-			case "lusurped":
-				c, _ := strconv.Atoi(strings.TrimPrefix(f[1], "c="))
-				var mine *reg
-				for k := range regs {
-					if regs[k].call == c {
-						mine = &regs[k]
-					}
-				}
-				justified := false
-				for _, r := range regs {
-					if mine != nil && r.pid == mine.pid && r.call != c && r.at > mine.at {
-						justified = true
-					}
-				}
-				if mine != nil && !justified {
-					mon = fmt.Sprintf("listen call %d for peer %d was ended as replaced although no newer Listen call for that peer had registered", c, mine.pid)
-					key = "sigsrv.listen-replaced:" + kind
-				}
+	for _, l := range w.lcalls {
+		if facts.ListenUsurped[l.id] && listenReplacedBy(l) == 0 {
+			set("sigsrv.listen-replaced:"+kind, fmt.Sprintf("listen call %d for peer %d was ended as replaced although no newer Listen call for that peer had registered", l.id, l.pid))
+		}
+	}
+	return mon, key
+}
+
+func (e *engine) validate(w *world, kind string, actions []string, drained bool) {
+	phase := "quiescent"
+	if drained {
+		phase = "drained"
+	}
+	var trace, cerr, op, model, mon, key string
+	pending := func() bool {
+		return strings.HasPrefix(model, "ok ") && (lib.KV(model, "awake") != "_" || lib.KV(model, "failing") != "_" || lib.KV(model, "pendingtx") != "_")
+	}
+	// A verdict is taken at quiescence. If the model still sees pending wake-ups, or a monitor on
+	// the real observations fires, or the replay has diverged, settle longer and look again
+	// (scheduling latency): what is reported is what persists.
+	waits := []time.Duration{20, 60, 150, 400, 1000}
+	if !drained {
+		// calls that must be refused log nothing: give their handlers time to return
+		deadline := time.After(2 * time.Second)
+		for _, s := range w.raws {
+			select {
+			case <-s.done:
+			case <-deadline:
 			}
+		}
+		for _, l := range w.rawl {
+			select {
+			case <-l.done:
+			case <-deadline:
+			}
+		}
+	}
+	for attempt := 0; ; attempt++ {
+		trace, cerr = w.canonical()
+		op = "sig.trace evs=" + trace
+		if cerr != "" {
+			model = "harness-error " + cerr
+		} else {
+			model = e.m.Query(op)
+		}
+		mon, key = e.observe(w, kind, drained, cerr)
+		again := false
+		switch {
+		case attempt >= len(waits):
+		case pending():
+			again = true
+		case mon != "" && attempt < 3:
+			again = true
+		case !strings.HasPrefix(model, "ok ") && attempt < 1:
+			again = true
+		}
+		if !again {
+			break
+		}
+		w.quiesce(waits[attempt] * time.Millisecond / 3)
+	}
+	impl := "ok"
+	if !strings.HasPrefix(model, "ok ") {
+		impl = "trace-accepted-by-real-server"
+	} else {
+		if aw := lib.KV(model, "awake"); aw != "_" && mon == "" {
+			mon = "lost wake-up: the server is quiescent but calls " + aw + " have an unannounced state change pending (their write loop was not woken)"
+			key = "sigsrv.wakeup:" + kind
+		}
+		if f := lib.KV(model, "failing"); f != "_" && mon == "" {
+			mon = "calls " + f + " should have returned (usurped / protocol error) but are still running"
+		}
+		if p := lib.KV(model, "pendingtx"); p != "_" && mon == "" {
+			mon = "calls " + p + " decided on responses in their last loop iteration that were never transmitted although the server is quiescent"
+			key = "sigsrv.pendingtx:" + kind
 		}
 	}
 	br := "trace." + kind + "." + phase
@@ -906,14 +1477,27 @@ func keys(m map[int]bool) []int {
 }
 
 func (e *engine) run() {
-	e.rep.Rule = "seeded random schedules of client actions (attach/usurp/send/stale/future/forged/tampered/ack/clear/re-init/close/cancel/listen) on the real relay server through fake streams with jitter; every server critical section + every response is replayed against the Lean LTS; sentinels: detach+re-attach and usurp while the partner stays (F10), late attach with a single sender (F9), listen across open/close/re-open (F8); distinct = distinct schedule"
-	e.rep.Require("trace.random.quiescent", "trace.random.drained", "trace.reattach-race.quiescent", "trace.late-attach.quiescent", "trace.listen-reopen.quiescent", "trace.listen-swap.quiescent", "trace.usurp-while-partner-blocked.quiescent", "trace.listen-stale-cleanup.quiescent")
+	e.rep.Rule = "seeded random schedules of client actions (attach/usurp/send/stale/future/forged/tampered and hand-assembled submissions: foreign or victim key attached, other signing context, unsigned, empty signature, nil body, nil message; ack/clear/re-init/close/cancel/listen/invalid first requests) among five peers on the real relay server (identity by callback or by mounted stream context) through fake streams with jitter; every server critical section + every response is replayed against the Lean LTS; monitors on the real traffic, returned errors and logged state are evaluated whether or not the replay diverged; sentinels: detach+re-attach and usurp while the partner stays (F10), late attach with a single sender (F9), listen across open/close/re-open (F8), listen usurp followed by session opens, overlapping session calls of one pair, every forgery class in the current epoch with the partner attached, requests before Init / streams without identity; distinct = distinct schedule"
+	e.rep.Require("trace.random.quiescent", "trace.random.drained", "trace.reattach-race.quiescent", "trace.late-attach.quiescent", "trace.listen-reopen.quiescent", "trace.listen-swap.quiescent", "trace.usurp-while-partner-blocked.quiescent", "trace.listen-stale-cleanup.quiescent",
+		"trace.listen-usurp-open.quiescent", "trace.session-overlap.quiescent", "trace.listen-many.quiescent", "trace.forgery-classes.quiescent", "trace.ident-mounted.quiescent", "trace.ident-callback.quiescent", "trace.session-overlap.drained", "trace.listen-usurp-open.drained")
 	e.rep.Extra["events"] = 0
 	e.scenario("late-attach", 1)
 	e.scenario("listen-reopen", 2)
 	e.scenario("usurp-while-partner-blocked", 1)
 	e.scenario("listen-swap", 1)
 	e.scenario("listen-stale-cleanup", 1)
+	for i := 0; i < 3*e.a.Scale; i++ {
+		e.scenario("listen-usurp-open", i)
+	}
+	for i := 0; i < 2*e.a.Scale; i++ {
+		e.scenario("session-overlap", i+2*e.rng.Intn(3))
+	}
+	e.scenario("forgery-classes", 1)
+	e.scenario("ident-mounted", 1)
+	e.scenario("ident-callback", 1)
+	for i := 0; i < 2*e.a.Scale; i++ {
+		e.scenario("listen-many", 10+e.rng.Intn(15))
+	}
 	for i := 0; i < 3*e.a.Scale; i++ {
 		e.scenario("reattach-race", 2+e.rng.Intn(3))
 	}
@@ -930,27 +1514,18 @@ func main() {
 	lg.SetOutput(io.Discard)
 	e := &engine{a: a, rng: lib.NewRng(a.Seed), m: lib.NewModel(a.Driver), le: logrus.NewEntry(lg), pidIx: map[string]int{}}
 	e.rep = lib.NewReport("sigsrv", a)
-	// three peers, indexed in the order of their peer id strings (the server's session key order)
-	type kp struct {
-		k  crypto.PrivKey
-		id peer.ID
+	// the peers, indexed in the order of their peer id strings (the server's session key order)
+	var kps []*sigoracle.Key
+	for i := 0; i < nPeers; i++ {
+		kps = append(kps, sigoracle.NewKey(e.rng.Bytes(32)))
 	}
-	var kps []kp
-	for i := 0; i < 3; i++ {
-		p, err := peer.NewPeer(nil)
-		if err != nil {
-			panic(err)
-		}
-		k, _ := p.GetPrivKey(context.Background())
-		kps = append(kps, kp{k, p.GetPeerID()})
-	}
-	sort.Slice(kps, func(i, j int) bool { return kps[i].id.String() < kps[j].id.String() })
-	e.keys = []crypto.PrivKey{nil}
+	sort.Slice(kps, func(i, j int) bool { return kps[i].IDStr < kps[j].IDStr })
+	e.keys = []*sigoracle.Key{nil}
 	e.pids = []peer.ID{""}
 	for i, x := range kps {
-		e.keys = append(e.keys, x.k)
-		e.pids = append(e.pids, x.id)
-		e.pidIx[x.id.String()] = i + 1
+		e.keys = append(e.keys, x)
+		e.pids = append(e.pids, x.ID)
+		e.pidIx[x.IDStr] = i + 1
 	}
 	switch a.Prop {
 	case "C20", "C21", "C22", "C24", "C25":
